@@ -11,12 +11,12 @@ domain are run through the real code; TLC recomputes Enc/Dec/Size for each recor
 from __future__ import annotations
 
 import concurrent.futures as cf
-import copy
 import json
 import os
+import signal
 
 from . import common
-from .common import Check, impl_call, run_tlc, SPECS
+from .common import Check, run_tlc, SPECS
 
 ALL_LEAVES = ["U8", "S8", "U16", "S16", "U32", "S32", "U64", "S64", "F32", "F64", "UUID", "Vec3", "Null",
               "BA8", "BAS8", "BA16", "BF2", "BG", "BT", "BTs", "BTn", "STR8", "STR16n", "SF3", "CS", "CSn",
@@ -27,6 +27,28 @@ ALL_CONS = ["CollP", "CollP16", "CollF", "CollG", "OptP", "IfP", "TBP", "TBPe", 
 INVS = ["RoundTrip", "Compose", "SizeSound", "EndianAgnostic", "DecTotal"]
 TAILS = [b"", b"\x00", b"\xff\x01", b"\x00\x00\x07"]
 JVM = ("-XX:ParallelGCThreads=2", "-XX:CICompilerCount=2")   # many small JVMs side by side: keep each one narrow
+
+
+CPU_LIMIT = 3.0   # seconds of CPU one call into the implementation may use (a mutant may loop forever)
+
+
+class ImplTimeout(Exception):
+    pass
+
+
+def _on_alarm(signum, frame):
+    raise ImplTimeout("no result after %gs of CPU time" % CPU_LIMIT)
+
+
+def impl_call(fn, *a, **kw):
+    """common.impl_call with a CPU-time bound: a call that does not return is an observation too."""
+    old = signal.signal(signal.SIGVTALRM, _on_alarm)
+    signal.setitimer(signal.ITIMER_VIRTUAL, CPU_LIMIT)
+    try:
+        return common.impl_call(fn, *a, **kw)
+    finally:
+        signal.setitimer(signal.ITIMER_VIRTUAL, 0)
+        signal.signal(signal.SIGVTALRM, old)
 
 
 def _set(xs):
@@ -566,11 +588,9 @@ class Gen:
                 t["dc"] = True
             return t
         if k == "coll":
-            if r.random() < 0.6:
+            if not avoid and r.random() < 0.6:
                 return {"k": "coll", "m": "prefix", "p": _it(*r.choice(INT_TYPES)), "n": 0,
-                        "c": self.tree(d, False, False, False, avoid if not avoid else avoid, (None,) + tuple(env))} if not avoid else \
-                       {"k": "coll", "m": "fixed", "p": _it(1, False), "n": r.randrange(1, 4),
-                        "c": self.tree(d, False, nonempty, False, avoid, (None,) + tuple(env))}
+                        "c": self.tree(d, False, False, False, avoid, (None,) + tuple(env))}
             return {"k": "coll", "m": "fixed", "p": _it(1, False), "n": r.randrange(1, 4),
                     "c": self.tree(d, False, nonempty, False, avoid, (None,) + tuple(env))}
         if k == "collgreedy":
@@ -829,11 +849,6 @@ class Gen:
                 return cint(0)
             return v
         raise AssertionError(k)
-
-    def selector_bias(self, t):
-        """Make selector / flag fields hit their switch keys often: post-process nothing, the value generator
-        draws small integers with high probability."""
-        return t
 
 
 def _clean(t):
